@@ -6,6 +6,23 @@ sys.path.insert(0, os.path.join(VERIF, "tools"))
 import extract    # noqa: E402
 import annotate   # noqa: E402
 
+# to be merged into META of obligations/c10.py by its author
+EXIT_META = {
+    "trusted_base": ["contracts/gate_contracts.h SPEC_EXIT + the contracts in harness/exit_h.c and virt_main (gate_virt_h.c)"],
+    "assumptions": [
+        "C10.exit.*: SPEC_EXIT(r, top) = (r != VM_OK ? 1 : top.tag == TAG_INT ? (int)top.i64 : 0) is read off the reference "
+        "`nano_virt --run` (src/nanovirt/main.c) and checked against that code by C10.exit.virt; vm_execute / vm_get_result are cut at "
+        "their interface: they return the ghost inputs __verif_vm_r / __verif_top_tag / __verif_top_i64 (arbitrary, never assigned); "
+        "vm_call_function (the wrapper's explicit __init__ call) returns an arbitrary VmResult; all other VM/NVM API calls are no-effect stubs",
+        "the value compared is the int returned by main / run_standalone; the operating system keeps its low 8 bits",
+        "C10.exit.wrapper.*: the text under proof is printed by the REAL write_wrapper_c (native build of src/nanovirt/wrapper_gen.c, "
+        "harness/wrapper_gen_driver.c) at check time for import_count == 0 and import_count > 0 (strength X over the generator's only "
+        "branch condition on the module) with program == NULL (no per-import vm_ffi_load_module(\"path\") lines: straight-line calls "
+        "without effect on the exit status); what nano_virt then does with that text (cc, link) is outside",
+        "the daemon path (nano_vm --daemon, vmd_execute) is not in this unit",
+        "cbmc --no-standard-checks (control flow only); known_modules[] table scans: no decreases clause (DFCC havocs static locals)",
+    ],
+}
 NOCHK = ["--no-standard-checks"]
 GI = ["--no-malloc-may-fail"]
 EXIT = "harness/exit_h.c"
